@@ -798,6 +798,12 @@ class StateScenario(Scenario):
                     rec.fail("C01/readback", "C01/readback-not-normalised/%s/%s" % (route, node["kind"]),
                              "%s %s = %r: reading back gives %r, the field's normalised form is %r"
                              % (route, path, canon(v), canon(got), exp.v))
+                if exp == REJ and node["kind"] in ("filename", "hostname") and not faulted and v is not None:
+                    # constraints that depend on the platform at the moment of acceptance (existence of the resolved path,
+                    # name resolution) cannot be re-checked on the stored value later: they are judged here
+                    rec.fail("C01/holds", "C01/constraint-violating-value-accepted/%s/%s" % (route, node["kind"]),
+                             "%s %s = %r was accepted although the field's declared constraints %r reject it in the current state of "
+                             "the platform" % (route, path, canon(v), node.get("o")))
             self.check_frame(st, rec, s0, cfg, path, route, node["kind"])
             self.check_defined(st, rec, owner, key, True, route, node["kind"])
         else:
@@ -823,7 +829,8 @@ class StateScenario(Scenario):
                     bad.append(a)
                 elif UNSPEC in (ra, rb):
                     return path, UNSPEC
-            if len(bad) == 1 and type(bad[0]) in (str, int, bool, tuple):
+            if len(bad) == 1 and type(bad[0]) in (str, int, bool, tuple) and kf["kind"] != "bytes":
+                # (a binary key has a text form in documents and a bytes form in memory: which one the error shows is open)
                 return "%s[%s]" % (path, str(bad[0])), REJ
             # several offending entries (conversion and validation are separate passes, so which one is
             # reported first is not defined), or rejected as a whole by the field's own validator
